@@ -136,6 +136,11 @@ impl Property for C04 {
     fn id(&self) -> &'static str {
         "C04"
     }
+    fn regimes(&self) -> &'static str {
+        // both generators are used
+        static BOTH: std::sync::OnceLock<String> = std::sync::OnceLock::new();
+        BOTH.get_or_init(|| format!("{}{}", crate::gen::REGIMES_CATALOGUE, crate::gen::REGIMES_FAMILY)).as_str()
+    }
     fn rule(&self) -> String {
         "proptest: problems of two kinds — (a) catalogue models with random observations and tame or wild starting parameters (a coordinate replaced by 0, a negative, 1e-3x or 1e3x its tame value), (b) instances of the certified families started 0..30% off — with all weight classes, S in 1..4, seq/par, f32/f64, and optimizer configurations ftol/xtol/gtol in {default, 0, 1e-8, 1e-3, 1e-1}, patience 1..12 (small values over-sampled), stepbound 1e-2..1e3, scale_diag on/off. Oracle: Ok iff termination in {ResidualsZero, Orthogonal, Converged} (list written out in the harness); for Ok: C01 predicates for (alpha_hat, C_hat), C02 identities, reported objective = ½|residuals|², objective <= objective at the initial guess (read before the fit); number_of_evaluations <= patience·(P+1) and, for hand-written models, the model's own call counters during fit() within that budget. Non-trivial: at least one accepted and one rejected trial step (classified by a probe run), or a non-successful termination".into()
     }
